@@ -319,6 +319,13 @@ class Machine:
         if len(found) != 1:
             cache[key] = _MISSING
             return _MISSING
+        e0 = found[0]
+        if (isinstance(e0, ast.Call) and isinstance(e0.func, ast.Name) and e0.func.id == "object" and not e0.args and not e0.keywords
+                and not any(isinstance(n, ast.Name) and n.id == "object" and isinstance(n.ctx, ast.Store) for n in ast.walk(mod.tree))):
+            # a sentinel `NAME = object()`: one individual, identical to itself and to nothing else, without
+            # attributes (the cache keeps it the same individual for the whole evaluation)
+            cache[key] = Obj("obj", "%s.%s" % (mod.name, name), token=False)
+            return cache[key]
         cache[key] = Unknown("module constant %s (recursive definition)" % name)
         try:
             v = self.ev(found[0], Frame(mod))
